@@ -320,6 +320,8 @@ def _sha(obj):
 
 def write_replay(prop, violation):
     d = os.path.join(VERIF, "replays", prop)
+    if os.environ.get("VERIF_NO_EVIDENCE"):
+        d = os.path.join(VERIF, ".scratch", "replays", prop)
     os.makedirs(d, exist_ok=True)
     body = {"property": prop, "part": violation["part"], "kind": violation["kind"],
             "detail": violation["detail"], "case": violation["case"]}
@@ -507,8 +509,9 @@ def run_property(modname, tier, seed):
     except Exception as e:  # schema-invalid evidence is a harness error
         ev_ok = False
         print(f"HARNESS-ERROR property={prop} evidence does not validate: {e}", flush=True)
-    with open(ev_path, "w") as f:
-        f.write(json.dumps(ev, indent=1, default=_json_default))
+    if not os.environ.get("VERIF_NO_EVIDENCE"):  # set only by the mutation self-test
+        with open(ev_path, "w") as f:
+            f.write(json.dumps(ev, indent=1, default=_json_default))
 
     for kid, hit in sorted(known_hits.items()):
         print(f"KNOWN-FINDING: property={prop} {hit['what']} [{kid}; {hit['n']} case(s)]", flush=True)
